@@ -225,6 +225,44 @@ def saver_reuse(H, root):
                     shutil.rmtree(sub, ignore_errors=True)
 
 
+def special_mode_bits(H, root):
+    """no file_perms requested: the new file gets the permissions of the file it replaces - all twelve mode bits
+    (stat.S_IMODE), sticky / setgid / setuid included"""
+    import stat as _stat
+    from boltons.fileutils import atomic_save
+    for mode in (0o1640, 0o2644, 0o4700, 0o6751, 0o0000, 0o7777):
+        for um in (0o022, 0o077):
+            sub = tempfile.mkdtemp(prefix='modes-', dir=root)
+            prev = os.umask(um)
+            wit = dict(replaced_file_mode=oct(mode), umask=oct(um))
+            try:
+                dest = os.path.join(sub, 'dest.bin')
+                with open(dest, 'wb') as f:
+                    f.write(b'old')
+                os.chmod(dest, mode)
+                if _stat.S_IMODE(os.stat(dest).st_mode) != mode:
+                    continue                      # this file system / user cannot carry the bit: nothing to compare
+                exc = None
+                try:
+                    with atomic_save(dest, text_mode=False) as f:
+                        f.write(b'new')
+                except BaseException as e:  # noqa
+                    exc = e
+                H.ev(key=('modes', mode, um), nontrivial=True, part='special mode bits', sample=wit)
+                got = _stat.S_IMODE(os.stat(dest).st_mode)
+                if exc is not None:
+                    H.fail('oserror_reaches_caller', 'atomic_save', 'replaced file with special mode bits; fault-free save raises', wit, repr(exc))
+                elif got != mode or open(dest, 'rb').read() != b'new':
+                    H.fail('permission_selection', 'AtomicSaver._open_part_file', 'replaced file with sticky / setgid / setuid bits', wit,
+                           'mode %s expected %s' % (oct(got), oct(mode)),
+                           REUSE_HDR + 'from boltons.fileutils import atomic_save\nd = tempfile.mkdtemp(); p = os.path.join(d, "x")\n'
+                           'open(p, "w").write("v1"); os.chmod(p, %s)\nwith atomic_save(p, text_mode=False) as f: f.write(b"n")\n'
+                           'assert mode(p) == %s, oct(mode(p))\n' % (oct(mode), oct(mode)))
+            finally:
+                os.umask(prev)
+                shutil.rmtree(sub, ignore_errors=True)
+
+
 def run():
     H = Harness('C05',
                 rule='one evaluation = one real save with OSError injected at a set of interposed events (none, one, or a pair), '
@@ -234,7 +272,7 @@ def run():
                                   'x dest {absent,present} x part {absent,present} x body {ok, raises, dest appears (overwrite=False)}: every event; '
                                   'pairs: the same with text_mode=False, umask=022, file_perms in {None,0o600}; every single fault also with errno EINVAL, '
                                   'ENOTSUP, ENOSPC, EINTR (text_mode=False, umask=022, file_perms=None); the same AtomicSaver object used for two '
-                                  'saves (failed attempt then retry / two completed saves) x umask {022,027,077} x file_perms {None,0o640}',
+                                  'saves (failed attempt then retry / two completed saves) x umask {022,027,077} x file_perms {None,0o640}; replaced files with sticky/setgid/setuid bits (6 modes x 2 umasks)',
                             thorough='singles and all pairs (k, j>k along the path after fault k) for the full product'))
     root = tempfile.mkdtemp(prefix='verif-C05-')
     nfail = [0]
@@ -289,6 +327,7 @@ def run():
                         # same defect as the fault-free run / the single fault when that already breaks the clause
                         one(cfg, {i, j}, dict(single[i], **res0))
         saver_reuse(H, root)
+        special_mode_bits(H, root)
     finally:
         shutil.rmtree(root, ignore_errors=True)
     H.finish()
